@@ -1286,8 +1286,61 @@ def task_machine(ctx, n, preimport=False):
 
 
 # ----------------------------------------------------------------------
+# ----------------------------------------------------------------------
+# a FLOOD of ions: a service with many fully used private tables.  Ions held from the start stay THE ions of their
+# atoms after 20 further tables have had every one of their ~14 700 ions looked up (about 300 000 distinct ions).
+def check_flood(ctx, case):
+    import copy
+    import gc
+    import pickle
+    import periodictable as pt
+    from periodictable import core, mass
+    ntables = case["tables"]
+    P0 = subtable.new("c08-flood-first")
+    mass.init(P0)
+    held = []
+    for T in (pt.elements, P0):
+        for sym in ("H", "Fe", "O", "U", "Cl", "Ce"):
+            el = T.symbol(sym)
+            for c in el.ions[:3]:
+                held.append((T, el, c, el.ion[c]))
+            iso = el[el.isotopes[len(el.isotopes) // 2]]
+            for c in el.ions[:2]:
+                held.append((T, iso, c, iso.ion[c]))
+    ctx.case(("flood", ntables), nontrivial=True, sample=case, cls=["ion-flood:%d-tables" % ntables])
+    total = 0
+    for k in range(ntables):
+        T = subtable.new("c08-flood-%d" % k)
+        mass.init(T)
+        for el in T:
+            for c in el.ions:
+                el.ion[c]
+                total += 1
+            for iso in el:
+                for c in el.ions:
+                    iso.ion[c]
+                    total += 1
+    ctx.count("ion-flood:distinct-ions-created", total)
+    gc.collect()
+    for T, atom, c, ion in held:
+        where = "%s ion %+d of %r (%s table), held while %d other ions were created on %d further tables" % (
+            "isotope" if hasattr(atom, "isotope") else "element", c, atom, "public" if T is pt.elements else "first private", total, ntables)
+        if atom.ion[c] is not ion:
+            raise Violation("c08:flood:lookup", "%s: atom.ion[c] is now another object" % where, case)
+        for how, fn in (("pickle", lambda x: pickle.loads(pickle.dumps(x))), ("deepcopy", copy.deepcopy), ("copy", copy.copy)):
+            if fn(ion) is not ion:
+                raise Violation("c08:flood:" + how, "%s: %s gives another object" % (where, how), case)
+        if ion.charge != c or (ion.element if not hasattr(atom, "isotope") else ion.element) is None:
+            raise Violation("c08:flood:attributes", "%s: charge %r" % (where, ion.charge), case)
+
+
+def task_flood(ctx, tables):
+    ctx.check(check_flood, {"kind": "flood", "tables": tables})
+
+
 def tasks(tier):
-    out = [("sweep-public", task_sweep, dict(cfg="public")),
+    out = [("ion-flood", task_flood, dict(tables=20 if tier == "quick" else 40)),
+           ("sweep-public", task_sweep, dict(cfg="public")),
            ("sweep-public-loaded", task_sweep, dict(cfg="public-loaded")),
            ("sweep-private-a", task_sweep, dict(cfg="private-a")),
            ("sweep-private-b", task_sweep, dict(cfg="private-b")),
@@ -1307,6 +1360,8 @@ def tasks(tier):
 
 def replay(ctx, case):
     kind = case["kind"]
+    if kind == "flood":
+        return check_flood(ctx, case)
     if kind == "machine":
         check_machine(ctx, [case["atoms"], case["ops"]])
         return
